@@ -128,7 +128,158 @@ func loopOrdinal(fn *ssa.Function, h *ssa.BasicBlock) int {
 	return 0
 }
 
+type selCtx struct {
+	sel     *selector
+	tagBack map[[2]int][]tagEdge
+	regsT   []map[ssa.Value]AVal
+}
+
+func (sa *Safe) checkLoopsSel(fr *frame, in []*State, backEdge map[[2]int]*State, sel *selector, tagBack map[[2]int][]tagEdge, regsT []map[ssa.Value]AVal) {
+	if sel != nil {
+		sa.curSel = &selCtx{sel, tagBack, regsT}
+	}
+	sa.checkLoops(fr, in, backEdge)
+	sa.curSel = nil
+}
+
+// rankFSM: the loop is partitioned by the header value of a state variable. A header phi n is
+// a ranking function if it never increases along any (state -> next state) back edge, strictly
+// decreases on enough of them that every cycle of the state graph contains a strict edge, and
+// the loop's exit test bounds it from below by loop-invariant quantities.
+func (sa *Safe) rankFSM(fr *frame, h *ssa.BasicBlock, latches []*ssa.BasicBlock, body map[*ssa.BasicBlock]bool, in []*State) (string, bool, string) {
+	sc := sa.curSel
+	T := len(sc.sel.vals) + 1
+	why := "no header variable decreases around every cycle of the state machine"
+	for _, ins := range h.Instrs {
+		phi, ok := ins.(*ssa.Phi)
+		if !ok {
+			break
+		}
+		if phi == sc.sel.phi {
+			continue
+		}
+		if _, isInt := intRange(phi.Type()); !isInt {
+			continue
+		}
+		pv, ok := fr.regs[phi]
+		if !ok || pv.Lin == nil {
+			continue
+		}
+		pa := onlyAtom(pv.Lin)
+		for _, dir := range []int64{-1, 1} {
+			weakOnly := map[int][]int{} // edges that are not strict
+			okAll := true
+			nEdges := 0
+			for _, l := range latches {
+				pi := -1
+				for k, p := range h.Preds {
+					if p == l {
+						pi = k
+					}
+				}
+				for t := 1; t < T; t++ {
+					for _, te := range sc.tagBack[[2]int{l.Index, t}] {
+						nEdges++
+						save := fr.regs
+						if sc.regsT[t] != nil {
+							fr.regs = sc.regsT[t]
+						}
+						inc := sa.val(fr, te.st, phi.Edges[pi])
+						fr.regs = save
+						if inc.Lin == nil {
+							okAll = false
+							continue
+						}
+						d := inc.Lin.add(pv.Lin, -1).scale(-dir) // dir=-1: inc - phi ; want <= 0 (weak), <= -1 (strict)
+						if dir == -1 {
+							d = inc.Lin.add(pv.Lin, -1)
+						} else {
+							d = pv.Lin.add(inc.Lin, -1)
+						}
+						if !te.st.prove(d) {
+							okAll = false
+							continue
+						}
+						if !te.st.prove(d.addConst(1)) {
+							weakOnly[t] = append(weakOnly[t], te.next)
+						}
+					}
+				}
+			}
+			if !okAll || nEdges == 0 {
+				continue
+			}
+			// the non-strict edges must form an acyclic graph
+			color := map[int]int{}
+			var cyc func(v int) bool
+			cyc = func(v int) bool {
+				color[v] = 1
+				for _, w := range weakOnly[v] {
+					if color[w] == 1 || (color[w] == 0 && cyc(w)) {
+						return true
+					}
+				}
+				color[v] = 2
+				return false
+			}
+			cyclic := false
+			for t := 1; t < T; t++ {
+				if color[t] == 0 && cyc(t) {
+					cyclic = true
+				}
+			}
+			if cyclic {
+				why = phiName(phi) + " stays unchanged around a cycle of states"
+				continue
+			}
+			// exit test bounding the phi (same criterion as R-rank)
+			for b := range body {
+				iff, ok := b.Instrs[len(b.Instrs)-1].(*ssa.If)
+				if !ok {
+					continue
+				}
+				inT, inF := body[b.Succs[0]], body[b.Succs[1]]
+				if inT == inF {
+					continue
+				}
+				c := sa.val(fr, in[h.Index], iff.Cond).Cond
+				neg := false
+				for c != nil && c.Op == "not" {
+					c, neg = c.A, !neg
+				}
+				if c == nil || c.Op != "le0" {
+					continue
+				}
+				stayOnTrue := inT != neg
+				k := c.L.T[pa]
+				if k == 0 {
+					continue
+				}
+				inv := true
+				for a := range c.L.T {
+					if a != pa && !sa.atomInvariant(a, pa, fr.fn, body, 0) {
+						inv = false
+					}
+				}
+				if !inv {
+					continue
+				}
+				if (stayOnTrue && k*dir > 0) || (!stayOnTrue && k*dir < 0) {
+					return "R-fsm(" + phiName(phi) + " over states of " + phiName(sc.sel.phi) + ")", true, ""
+				}
+			}
+			why = "no exit test bounds " + phiName(phi)
+		}
+	}
+	return "", false, why
+}
+
 func (sa *Safe) rankLoop(fr *frame, h *ssa.BasicBlock, latches []*ssa.BasicBlock, body map[*ssa.BasicBlock]bool, in []*State, backEdge map[[2]int]*State) (string, bool, string) {
+	if sa.curSel != nil && sa.curSel.sel.head == h {
+		if rule, ok, _ := sa.rankFSM(fr, h, latches, body, in); ok {
+			return rule, true, ""
+		}
+	}
 	// R-range
 	for b := range body {
 		for _, ins := range b.Instrs {
